@@ -63,7 +63,7 @@ def purity_cfg(chk, name, big=False, emit=False, invariants=("TypeOK", "Function
 
 def model(chk, big=False):
     """the invariant on the model, the grid of small configurations, and the deviation constants"""
-    res = tlc_check("Purity", purity_cfg(chk, "purity", big=big, emit=True), chk.wd, workers=4, timeout=900, coverage=True)
+    res = tlc_check("Purity", purity_cfg(chk, "purity", big=big, emit=True), chk.wd, workers=8 if big else 4, timeout=900, coverage=True)
     zero = [a for a in res.coverage_zero_actions() if a in ("Construct", "Drop", "Compute", "Init")]
     if zero:
         raise ToolError("Purity: action never taken: %s" % zero)
